@@ -182,3 +182,22 @@ func H_C01_roundtrip_after_nested_mutation() {
 	hCheckRoundTrip(c, false)
 	verifReach("end")
 }
+
+// every string of two (thorough: three) arbitrary Unicode scalar values as a string value and as a key
+func H_C01_string_runes() {
+	n := 2
+	if verifTier() > 0 {
+		n = 3
+	}
+	verifBound("STRRUNES", n)
+	s := ""
+	for i := 0; i < n; i++ {
+		s += string(hValidRune())
+	}
+	if nondetIntRange(0, 1) == 0 {
+		hCheckRoundTrip(NewList(s), false)
+	} else {
+		hCheckRoundTrip(NewObject(s, 1), false)
+	}
+	verifReach("end")
+}
